@@ -438,6 +438,9 @@ def sort_model(ev, recv, kw, st, node):
     st.pc.append(z3.ForAll([k], z3.Implies(rng, z3.And(Q[k] >= 0, Q[k] < n, P[Q[k]] == k))))
     eqs = [x == y for x, y in zip(flatten_val(recv.esh, out.at(k)), flatten_val(recv.esh, recv.at(P[k])))]
     st.pc.append(z3.ForAll([k], z3.Implies(rng, z3.And(*eqs))))
+    # the same fact read backwards (every old element occurs in the result, at position Q[k])
+    eqs2 = [x == y for x, y in zip(flatten_val(recv.esh, recv.at(k)), flatten_val(recv.esh, out.at(Q[k])))]
+    st.pc.append(z3.ForAll([k], z3.Implies(rng, z3.And(*eqs2))))
     a, b = z3.Int(fresh_name("a")), z3.Int(fresh_name("b"))
 
     def keyof(v):
@@ -449,6 +452,21 @@ def sort_model(ev, recv, kw, st, node):
         raise Unsupported("tuple sort keys")
     x, y, _ = num_pair(as_num(ka), as_num(kb))
     st.pc.append(z3.ForAll([a, b], z3.Implies(z3.And(a >= 0, a < b, b < n), (x >= y) if descending else (x <= y))))
+    # consequences of "sorted permutation" at a few ground positions (first / last / last-but-one old element): the first
+    # result is a lower bound and the last an upper bound of those elements (instances of recv[k] == out[Q[k]] + sortedness)
+    if keyf is None and recv.esh.kind in ("int", "real"):
+        for kk in (z3.IntVal(0), z3.simplify(n - 1), z3.simplify(n - 2)):
+            inr = z3.And(kk >= 0, kk < n)
+            e = as_num(recv.at(kk)).t
+            lo_, hi_ = as_num(out.at(z3.IntVal(0))).t, as_num(out.at(z3.simplify(n - 1))).t
+            st.pc.append(z3.Implies(inr, (lo_ >= e) if descending else (lo_ <= e)))
+            st.pc.append(z3.Implies(inr, (hi_ <= e) if descending else (hi_ >= e)))
+    # a permutation does not change the sum of any integer column (multiset invariance)  [A]
+    for la, lb, lsh in zip(out.arrs, recv.arrs, flatten_shape(recv.esh)):
+        if lsh.kind == "int":
+            s_out = sum_term(la, out.off, z3.simplify(out.off + n))
+            s_in = sum_term(lb, recv.off, z3.simplify(recv.off + n))
+            st.pc.append(s_out == s_in)
     ev.ctx.last_perm = (P, Q)
     return out
 
@@ -532,6 +550,18 @@ def lib_minmax(ev, args, kw, st, node):
     return r
 
 
+@lib("builtins.sorted")
+def lib_sorted(ev, args, kw, st, node):
+    """sorted(seq, key=..., reverse=...): a new list, sorted permutation of the argument (the argument is not modified)"""
+    v = args[0]
+    if isinstance(v, Tup):
+        v = conform_arg(ev, v, Sh("seq", [shape_of(v.items[0])]), st) if v.items else None
+    if not isinstance(v, Seq):
+        raise Unsupported("sorted of %r" % (args[0],))
+    src = Seq(v.n, v.off, v.arrs, v.esh, "list")
+    return sort_model(ev, src, kw, st, node)
+
+
 @lib("numpy.array", "numpy.asarray")
 def lib_array(ev, args, kw, st, node):
     v = args[0]
@@ -571,12 +601,17 @@ def argext(ev, args, st, node, which):
     vr = z3.Select(arr, z3.simplify(v.off + r))
     vp = z3.Select(arr, p)
     st.pc.append(z3.And(r >= 0, r < v.n))
+    def fa(body):
+        try:
+            return z3.ForAll([p], body, patterns=[vp])
+        except z3.Z3Exception:
+            return z3.ForAll([p], body)      # the array term contains an if-then-else: z3 chooses the trigger
     if which == "max":
-        st.pc.append(z3.ForAll([p], z3.Implies(z3.And(p >= lo, p < hi), vp <= vr), patterns=[vp]))
-        st.pc.append(z3.ForAll([p], z3.Implies(z3.And(p >= lo, p < lo + r), vp < vr), patterns=[vp]))
+        st.pc.append(fa(z3.Implies(z3.And(p >= lo, p < hi), vp <= vr)))
+        st.pc.append(fa(z3.Implies(z3.And(p >= lo, p < lo + r), vp < vr)))
     else:
-        st.pc.append(z3.ForAll([p], z3.Implies(z3.And(p >= lo, p < hi), vp >= vr), patterns=[vp]))
-        st.pc.append(z3.ForAll([p], z3.Implies(z3.And(p >= lo, p < lo + r), vp > vr), patterns=[vp]))
+        st.pc.append(fa(z3.Implies(z3.And(p >= lo, p < hi), vp >= vr)))
+        st.pc.append(fa(z3.Implies(z3.And(p >= lo, p < lo + r), vp > vr)))
     return Num(r)
 
 
